@@ -113,6 +113,7 @@ fn classify(msg: &str) -> String {
         ("assertion failed: precision > 0", "UnlimitedPrecision"),
         ("assertion failed: self.is_finite()", "OperateWithInf"),
         ("exponent is too large", "ExponentOverflow"),
+        ("the exponent of the result is too large", "ExponentOverflow"),
         ("attempt to add with overflow", "ArithOverflow"),
         ("attempt to subtract with overflow", "ArithOverflow"),
         ("attempt to multiply with overflow", "ArithOverflow"),
@@ -734,6 +735,8 @@ fn fl<R: Round, const B: Word>(op: &str, a: &[&str]) -> String {
         "fmt_prec" => ok(format!("{:.*}", usz(a[3]), x())),
         "repr_fmt" => ok((format!("{}", xr()), format!("{:?}", xr()))),
         "from_parts" => ok(FBig::<R, B>::from_parts(ibig(a[1]), isz(a[2]))),
+        // Repr::new alone: the normalisation adds the stripped digits to the exponent (round 4, finding F14)
+        "repr_new" => ok(Repr::<B>::new(ibig(a[1]), isz(a[2]))),
         "sum" => ok([x(), y()].iter().sum::<FBig<R, B>>()),
         "product" => ok([x(), y()].iter().product::<FBig<R, B>>()),
         "from_f32" => okc(FBig::<R, 2>::try_from(f32::from_bits(u32a(a[1])))),
@@ -942,14 +945,67 @@ fn de<T: serde::de::DeserializeOwned>(fmt: &str, data: &[u8]) -> String {
     }
 }
 
+// the struct form of a value in postcard, encoded here (not by the library's serialiser): a varint length + the
+// little-endian bytes of the magnitude for the integers (IBig: even length = positive, odd = negative, padded with
+// one zero byte), zigzag varint for isize, varint for usize
+fn pc_varint(mut v: u128, out: &mut Vec<u8>) {
+    loop {
+        let b = (v & 0x7f) as u8;
+        v >>= 7;
+        if v == 0 {
+            out.push(b);
+            return;
+        }
+        out.push(b | 0x80);
+    }
+}
+fn pc_int(tok: &str, signed: bool, out: &mut Vec<u8>) {
+    let (neg, h) = match tok.strip_prefix('-') {
+        Some(r) => (true, r),
+        None => (false, tok),
+    };
+    let h = h.trim_start_matches('0');
+    let h = if h.len() % 2 == 1 { format!("0{}", h) } else { h.to_string() };
+    let mut bytes: Vec<u8> = (0..h.len() / 2).map(|i| u8::from_str_radix(&h[2 * i..2 * i + 2], 16).expect("hex")).collect();
+    bytes.reverse();
+    if signed && !bytes.is_empty() && ((!neg && bytes.len() % 2 == 1) || (neg && bytes.len() % 2 == 0)) {
+        bytes.push(0);
+    }
+    pc_varint(bytes.len() as u128, out);
+    out.extend_from_slice(&bytes);
+}
+fn pc_isize(tok: &str, out: &mut Vec<u8>) {
+    let v = isz(tok) as i128;
+    pc_varint(((v << 1) ^ (v >> 127)) as u128 & 0xffff_ffff_ffff_ffff, out);
+}
+fn struct_bytes(ty: &str, a: &[&str]) -> Vec<u8> {
+    let mut out = Vec::new();
+    match ty {
+        "rbig" | "relaxed" => {
+            pc_int(a[0], true, &mut out);
+            pc_int(a[1], false, &mut out);
+        }
+        _ => {
+            pc_int(a[0], true, &mut out);
+            pc_isize(a[1], &mut out);
+            if ty != "repr" {
+                pc_varint(u128::from_str_radix(a[2], 16).expect("usize"), &mut out);
+            }
+        }
+    }
+    out
+}
+
 fn deser(op: &str, a: &[&str]) -> String {
     let (ty, fmt) = op.split_once('.').expect("d.<type>.<format>");
-    let data = b_arg(a[0]);
+    let (fmt, data) = if fmt == "struct" { ("postcard", struct_bytes(ty, a)) } else { (fmt, b_arg(a[0])) };
     match ty {
         "ubig" => de::<UBig>(fmt, &data),
         "ibig" => de::<IBig>(fmt, &data),
         "fbig" => de::<FBig<mode::Zero, 2>>(fmt, &data),
         "dbig" => de::<FBig<mode::HalfAway, 10>>(fmt, &data),
+        "tbig" => de::<FBig<mode::Zero, 3>>(fmt, &data),
+        "hbig" => de::<FBig<mode::Zero, 16>>(fmt, &data),
         "repr" => de::<Repr<10>>(fmt, &data),
         "rbig" => de::<RBig>(fmt, &data),
         "relaxed" => de::<Relaxed>(fmt, &data),
@@ -969,6 +1025,16 @@ fn run(op: &str, a: &[&str]) -> String {
                 _ => "unknown-op".into(),
             };
         }
+    }
+    if fam == "T" {
+        // T.<op> args: the operation twice, the faster run in microseconds (thorough tier: compared with the cost bound)
+        let t0 = std::time::Instant::now();
+        let r1 = run(name, a);
+        let d1 = t0.elapsed();
+        let t1 = std::time::Instant::now();
+        let _ = run(name, a);
+        let d2 = t1.elapsed();
+        return format!("{} us={:x}", r1, d1.min(d2).as_micros());
     }
     match fam {
         "u" => int_u(name, a),
